@@ -15,7 +15,11 @@ SCRATCH = os.environ.get("SEED_SCRATCH", "/var/tmp/ural-seed")
 
 
 def sh(cmd, **kw):
-    return subprocess.run(cmd, shell=isinstance(cmd, str), capture_output=True, text=True, **kw)
+    try:
+        return subprocess.run(cmd, shell=isinstance(cmd, str), capture_output=True, text=True, **kw)
+    except subprocess.TimeoutExpired:
+        # a demonstration that does not terminate on the changed tree counts as a reproduced violation
+        return subprocess.CompletedProcess(cmd, 1, "timeout", "")
 
 
 def make_scratch(patch):
@@ -58,7 +62,7 @@ def one(sid, thorough):
         t = sh("cd %s && /venv/bin/python -m pytest -q -p no:cacheprovider 2>&1 | tail -1" % SCRATCH)
         row["tests"] = t.stdout.strip()
         demo = os.path.join(d, "demo.py")
-        row["demo_mutant"] = sh(["/venv/bin/python", demo, SCRATCH]).returncode
+        row["demo_mutant"] = sh(["/venv/bin/python", demo, SCRATCH], timeout=120).returncode
         row["demo_repo"] = sh(["/venv/bin/python", demo, "/repo"]).returncode
         rc, viol, dt, out = run_check(prop, "quick")
         rc2, viol2, _, _ = run_check(prop, "quick") if (rc == 1 and not ONCE) else (rc, viol, 0, "")
